@@ -120,6 +120,15 @@ M = [
  ('R3A-E2b-coresimd-quat-as-dquat-swapped', 'src/f32/coresimd/quat.rs', r'833s/self.z as f64, self.w as f64/self.w as f64, self.z as f64/', ['C05']),
  ('R3A-E3a-f32-minus-vec4-swapped', 'src/f32/sse2/vec4.rs', r'1560s/_mm_sub_ps(_mm_set1_ps(self), rhs.0)/_mm_sub_ps(rhs.0, _mm_set1_ps(self))/', ['C07']),
  ('R3A-E4-mat2-mul-vec2-shuffle', 'src/f32/sse2/mat2.rs', r'322s/0b01_00_11_10/0b01_00_10_11/', ['C03']),
+ ('R3B-a05-to-euler-threshold-1000eps', 'src/euler.rs', r's/> 16.0 \* \$scalar::EPSILON/> 1000.0 * $scalar::EPSILON/', ['C09']),
+ ('R3B-b02-dquat-to-axis-angle-1e-6', 'src/f64/dquat.rs', r'445s/1.0e-8/1.0e-6/', ['C09']),
+ ('R3B-k01-dquat-from-scaled-axis-1e-11', 'src/f64/dquat.rs', r'143s/length == 0.0/length < 1.0e-11/', ['C09']),
+ ('R3B-a08-dquat-slerp-f32-epsilon', 'src/f64/dquat.rs', r'718s/1.0 - f64::EPSILON/1.0 - f32::EPSILON as f64/', ['C12']),
+ ('R3B-a09-dquat-rotate-towards-1e-3', 'src/f64/dquat.rs', r'641s/1e-4/1e-3/', ['C12']),
+ ('R3B-a02-dquat-to-axis-angle-degenerate-angle', 'src/f64/dquat.rs', r'453s/(DVec3::X, 0.0)/(DVec3::X, 1.0)/', ['C09']),
+ ('R3B-d04-dvec3-orthogonal-guard-le', 'src/f64/dvec3.rs', r'1035s/ > / <= /', ['C12']),
+ ('R3B-d05-vec3-orthogonal-guard-no-abs', 'src/f32/vec3.rs', r'1035s/if math::abs(self.x) > math::abs(self.y)/if self.x > self.y/', ['C12']),
+ ('R3B-b03-vec4-lerp-s-squared', 'src/f32/sse2/vec4.rs', r'844s/rhs \* s$/rhs * (s * s)/', ['C12']),
  ('R3C-EV7-debug-glam-assert-inverted', 'src/macros.rs', r's/all(debug_assertions, feature = "debug-glam-assert")/all(not(debug_assertions), feature = "debug-glam-assert")/', ['C20']),
  ('R3C-EV8-quat-deserialized-through-f32', 'src/features/impl_serde.rs', r'260s/let x = seq/let x: f32 = seq/;263s/let y = seq/let y: f32 = seq/;266s/let z = seq/let z: f32 = seq/;269s/let w = seq/let w: f32 = seq/;272s/from_xyzw(x, y, z, w)/from_xyzw(x as $t, y as $t, z as $t, w as $t)/', ['C19']),
  ('R3C-EV9-quat-deserialized-negated', 'src/features/impl_serde.rs', r'272s/Ok([$]quat::from_xyzw(x, y, z, w))/Ok(-$quat::from_xyzw(x, y, z, w))/', ['C19']),
